@@ -214,6 +214,26 @@ def tree_case(rep, drv, rng, th):
 			bad.append('renumbering the nodes changed the optimal cost: %r vs %r' % (cost, cost2))
 	except Exception as e:
 		bad.append('relabelled instance raised %s' % err_enum(e))
+	# the public relabel_nodes: a tree that has already been relabelled (its nodes carry original_label) is a legal input; the answer comes
+	# back under the labels of the network that was passed, with the same CST at every stage and the same cost
+	try:
+		with warnings.catch_warnings():
+			warnings.simplefilter('ignore')
+			pre = gsm_tree.preprocess_tree(build())
+			rel = gsm_tree.relabel_nodes(pre, start_index=rng.choice([1, 1, 7]))
+			back = {n_.index: n_.original_label for n_ in rel.nodes}
+			cst3, cost3 = gsm_tree.optimize_committed_service_times(rel)
+		rep.count('tree:solved-after-relabel_nodes')
+		if set(cst3.keys()) != set(back.keys()):
+			bad.append('after relabel_nodes the CSTs come back under labels %s, the network passed has labels %s' % (sorted(cst3.keys()), sorted(back.keys())))
+		else:
+			ev3 = drv.call('gsmtree', nodes=nodes, cst=[int(cst3[[k_ for k_, v_ in back.items() if v_ == l][0]]) for l in order])
+			if not close(cost3, cost) or not ev3['feasible'] or not close(cost3, unfr(ev3['cost'])):
+				bad.append('tree relabelled with relabel_nodes: cost %r (original numbering %r), CSTs mapped back %s feasible=%s cost %s' % (
+					cost3, cost, {back[k_]: int(v_) for k_, v_ in cst3.items()}, ev3['feasible'], float(unfr(ev3['cost'])) if ev3['feasible'] else None))
+	except Exception as e:
+		import traceback
+		bad.append('tree relabelled with relabel_nodes raised %s: %s' % (err_enum(e), traceback.format_exc()[-200:]))
 	# serial systems: serial and tree algorithms agree
 	if kind == 'serial' and all(extIn[l] in (None, 0) or l in sources for l in labels) and all(own[l] == (l in sinks) for l in labels):
 		from stockpyl import gsm_serial
